@@ -332,6 +332,9 @@ def applyOp (s : St) (ws : List String) : St × String :=
     match byteOf v with
     | some v => ({ s with m := m.mapBoard (·.setDi1 v), bspec := s.bspec.setDi1 v }, "ok")
     | none => bad
+  | ["spec.micr"] =>
+    -- the mask register of the model bus = the abstract address map's mask (C10 abs_refines)
+    (s, s!"micr={hex2 m.core.bus.micr} enabled={b01 m.core.bus.keyEdgeEnabled}")
   | ["spec.busstat"] => (s, "consistent")
   | ["spec.irq"] => ({ s with m := m.keyInterrupt, bspec := s.bspec.keyIrq }, "ok")
   | ["spec.busd"] => (s, s.bspec.str)
@@ -483,6 +486,8 @@ def applyOp (s : St) (ws : List String) : St × String :=
   | ["spec.masterreset"] =>
     (s, "a=0 ir=2 r=0000000000000000 pr=- pf=0 pi=0 alu=00000 lb=00 run=R w=0 out=0000 micr=00 ucr=00 in=00000000 t=0,0,0,0 do=0000 ao=0,0 icr=00 rpm=0 dir=000 kept=1")
   | ["spec.reload", _, _, _, _] => (s, "agree")
+  | ["spec.reloadasm", _, _, _, _] => (s, "agree")
+  | ["spec.resetasm", _, _, _, _] => (s, "agree")
   | [tag, hx, n, ints, resets, cfg] =>
     if tag = "spec.runner" ∨ tag = "runner" ∨ tag = "spec.stepped" then
       match unhexE hx, n.toNat?, natList ints, natList resets, cfgOf cfg with
